@@ -183,12 +183,8 @@ func aliasFace(id uint64) uint64 {
 	return id
 }
 
-func waitGoroutines(n int) {
-	deadline := time.Now().Add(2 * time.Second)
-	for runtime.NumGoroutine() > n && time.Now().Before(deadline) {
-		time.Sleep(100 * time.Microsecond)
-	}
-}
+// faceDone: logical face -> closed when the link service's send goroutine (which performs the teardown) has returned
+var faceDone = map[uint64]<-chan struct{}{}
 
 func (o op) String() string {
 	var sb strings.Builder
@@ -222,9 +218,8 @@ func (o op) run() string {
 	case "close":
 		// the transport ends: the link service's own goroutines run the teardown (runSend -> FaceTable.Remove -> CleanUpFace)
 		if t := faceTr[o.a[0]]; t != nil {
-			before := runtime.NumGoroutine()
 			t.Close()
-			waitGoroutines(before - 2)
+			<-faceDone[o.a[0]] // runSend has returned: FaceTable.Remove and Rib.CleanUpFace are done
 			faceTr[o.a[0]] = nil
 		}
 	case "ins":
@@ -406,7 +401,7 @@ func forcedRounds(t *testing.T, w *bufio.Writer) {
 							for _, r := range recs {
 								fmt.Fprintf(w, "H %d %d %d %s => %s\n", r.g, r.inv, r.resp, r.op.String(), r.res)
 							}
-							fmt.Fprintf(w, "X watchdog: operation [%s] never returned after the history above (a lock is still held: deadlock)\nE\n", o.String())
+							fmt.Fprintf(w, "X watchdog: operation [%s] never returned after the history above (a lock is still held: deadlock; %s)\nE\n", o.String(), lastDeadlock)
 							w.Flush()
 							t.Fatalf("forced round %d: %s never returned", k, o.String())
 						}
@@ -421,14 +416,22 @@ func forcedRounds(t *testing.T, w *bufio.Writer) {
 					}()
 					var r1, r2 rec
 					got1 := false
-					select {
-					case <-gf.parked:
-					case r1 = <-done1: // op1 never reached the FIB
-						got1 = true
-					case <-time.After(stuckAfter):
-						fmt.Fprintf(w, "R g%d %s %d 2\nX watchdog: operation [%s] neither reached the FIB nor returned (deadlock)\nE\n", k, impl, m, o1.String())
-						w.Flush()
-						t.Fatalf("forced round %d: op1 neither reached the FIB nor returned", k)
+				waitParked:
+					for {
+						select {
+						case <-gf.parked:
+							break waitParked
+						case r1 = <-done1: // op1 never reached the FIB
+							got1 = true
+							break waitParked
+						case <-time.After(stuckAfter):
+							if dl, why := confirmDeadlock(); dl {
+								fmt.Fprintf(w, "R g%d %s %d 2\nX watchdog: operation [%s] neither reached the FIB nor returned: deadlock (%s)\nE\n", k, impl, m, o1.String(), why)
+								w.Flush()
+								t.Fatalf("forced round %d: op1 neither reached the FIB nor returned", k)
+							}
+							stillWaiting()
+						}
 					}
 					parked := !got1
 					gf.mu.Lock()
@@ -455,9 +458,12 @@ func forcedRounds(t *testing.T, w *bufio.Writer) {
 						case r2 = <-done2:
 							got2 = true
 						case <-time.After(stuckAfter):
-							fmt.Fprintf(w, "R g%d %s %d 2\nX watchdog: forced interleaving %s | %s did not complete (deadlock?)\nE\n", k, impl, m, o1.String(), o2.String())
-							w.Flush()
-							t.Fatalf("forced round %d did not complete (deadlock?)", k)
+							if dl, why := confirmDeadlock(); dl {
+								fmt.Fprintf(w, "R g%d %s %d 2\nX watchdog: forced interleaving %s | %s did not complete: deadlock (%s)\nE\n", k, impl, m, o1.String(), o2.String(), why)
+								w.Flush()
+								t.Fatalf("forced round %d did not complete (deadlock)", k)
+							}
+							stillWaiting()
 						}
 					}
 					recs = append(recs, r1, r2)
@@ -552,16 +558,122 @@ func finalObs(universe []iname) string {
 	return ""
 }
 
-// bounded runs f and reports whether it returned within d
-func bounded(d time.Duration, f func()) bool {
-	done := make(chan struct{})
-	go func() { f(); close(done) }()
+// ---- waiting without turning the wall clock into a verdict ----
+// A wall-clock limit never produces a failure here.  When something has not happened after stuckAfter the goroutines are
+// inspected: a DEADLOCK is reported only if, in two inspections half a second apart, some goroutine inside the forwarder's
+// code waits for a mutex while no goroutine inside the forwarder's code is running or runnable (so nobody can ever release
+// it).  Otherwise the machine is merely slow and the wait goes on; after hardCap of that the run is abandoned with a note.
+const hardCap = 150 * time.Second
+
+func lockWaitState(state string) bool {
+	return strings.HasPrefix(state, "sync.Mutex.Lock") || strings.HasPrefix(state, "sync.RWMutex.Lock") ||
+		strings.HasPrefix(state, "sync.RWMutex.RLock") || strings.HasPrefix(state, "semacquire")
+}
+
+// deadlocked inspects all goroutines once
+func deadlocked() (bool, string) {
+	buf := make([]byte, 8<<20)
+	n := runtime.Stack(buf, true)
+	waiting, active := 0, 0
+	var sample string
+	for _, g := range strings.Split(string(buf[:n]), "\n\n") {
+		if !strings.Contains(g, "github.com/named-data/ndnd/fw/") {
+			continue
+		}
+		i, j := strings.Index(g, "["), strings.Index(g, "]")
+		if i < 0 || j < i {
+			continue
+		}
+		state := g[i+1 : j]
+		if k := strings.Index(state, ","); k >= 0 {
+			state = state[:k]
+		}
+		switch {
+		case lockWaitState(state):
+			waiting++
+			if sample == "" {
+				lines := strings.Split(g, "\n")
+				if len(lines) > 8 {
+					lines = lines[:8]
+				}
+				sample = strings.Join(lines, " | ")
+			}
+		case state == "running" || state == "runnable" || state == "syscall":
+			active++
+		}
+	}
+	return waiting > 0 && active == 0, sample
+}
+
+// confirmDeadlock: two inspections half a second apart both show a deadlock
+func confirmDeadlock() (bool, string) {
+	d1, why := deadlocked()
+	if !d1 {
+		return false, ""
+	}
+	time.Sleep(500 * time.Millisecond)
+	d2, _ := deadlocked()
+	return d2, why
+}
+
+var slowSince time.Time
+
+// stillWaiting is called each time a wait has lasted another stuckAfter without a deadlock being visible
+func stillWaiting() {
+	if slowSince.IsZero() {
+		slowSince = time.Now()
+	}
+	if time.Since(slowSince) > hardCap {
+		fmt.Fprintf(harnessW, "N the machine is too slow: waits added up to more than %v although no deadlock is visible; the remaining rounds are abandoned\n", hardCap)
+		harnessW.Flush()
+		os.Exit(0)
+	}
+}
+
+// await waits for done; false only for a proven deadlock (see above)
+func await(done <-chan struct{}) (bool, string) {
 	select {
 	case <-done:
-		return true
-	case <-time.After(d):
-		return false
+		return true, ""
+	case <-time.After(stuckAfter):
 	}
+	start := time.Now()
+	for {
+		d1, why := deadlocked()
+		select {
+		case <-done:
+			return true, ""
+		case <-time.After(500 * time.Millisecond):
+		}
+		if d1 {
+			if d2, _ := deadlocked(); d2 {
+				select {
+				case <-done:
+					return true, ""
+				default:
+					return false, why
+				}
+			}
+		}
+		if time.Since(start) > hardCap {
+			fmt.Fprintf(harnessW, "N the machine is too slow: an operation did not finish within %v although no deadlock is visible; the remaining rounds are abandoned\n", hardCap)
+			harnessW.Flush()
+			os.Exit(0)
+		}
+	}
+}
+
+var lastDeadlock string // where the last proven deadlock waits
+
+// bounded runs f and reports whether it returned; false only for a proven deadlock
+func bounded(_ time.Duration, f func()) bool {
+	done := make(chan struct{})
+	go func() { f(); close(done) }()
+	ok, why := await(done)
+	if !ok {
+		lastDeadlock = why
+	}
+	return ok
 }
 
 // readvertiseRound: client-origin (65) routes with NLSR readvertising on; the same prefix registered on two faces, one
@@ -760,12 +872,19 @@ func unsetRaceRound(t *testing.T, w *bufio.Writer, round int, impl string, m int
 		jobs[0].start <- struct{}{}
 		jobs[1].start <- struct{}{}
 		for gi := 0; gi < 2; gi++ {
-			select {
-			case <-jobs[gi].done:
-			case <-time.After(stuckAfter):
-				fmt.Fprintf(w, "R u%d %s %d 2\nX watchdog: strategy unset / set / insert on one prefix did not return (deadlock)\nE\n", round, impl, m)
-				w.Flush()
-				t.Fatalf("unset race round %d stuck", round)
+		waitJob:
+			for {
+				select {
+				case <-jobs[gi].done:
+					break waitJob
+				case <-time.After(stuckAfter):
+					if dl, why := confirmDeadlock(); dl {
+						fmt.Fprintf(w, "R u%d %s %d 2\nX watchdog: strategy unset / set / insert on one prefix did not return: deadlock (%s)\nE\n", round, impl, m, why)
+						w.Flush()
+						t.Fatalf("unset race round %d stuck", round)
+					}
+					stillWaiting()
+				}
 			}
 		}
 		if got := nhStr(f.FindNextHopsEnc(pn)); got != "7:3" {
@@ -817,7 +936,7 @@ func lifecycleRounds(t *testing.T, w *bufio.Writer) {
 				resetRib()
 				tr := face.NewVerifTransport(8800, defn.NonLocal)
 				ls := face.MakeNDNLPLinkService(tr, face.MakeNDNLPLinkServiceOptions())
-				ls.Run(nil)
+				faceDone = map[uint64]<-chan struct{}{1: face.VerifRunLinkService(ls)}
 				faceReal = map[uint64]uint64{1: ls.FaceID()}
 				faceAlias = map[uint64]uint64{ls.FaceID(): 1}
 				faceTr = map[uint64]*face.VerifTransport{1: tr}
@@ -877,9 +996,8 @@ func lifecycleRounds(t *testing.T, w *bufio.Writer) {
 				fmt.Fprint(w, finalObs(universe))
 				fmt.Fprintf(w, "E\n")
 				if faceTr[1] != nil {
-					before := runtime.NumGoroutine()
 					tr.Close()
-					waitGoroutines(before - 2)
+					<-faceDone[1]
 				}
 				faceReal, faceAlias, faceTr = map[uint64]uint64{}, map[uint64]uint64{}, map[uint64]*face.VerifTransport{}
 			}
@@ -1083,10 +1201,8 @@ func listingRound(t *testing.T, w *bufio.Writer, round int, impl string) {
 	close(stop)
 	done := make(chan struct{})
 	go func() { wg.Wait(); close(done) }()
-	select {
-	case <-done:
-	case <-time.After(stuckAfter):
-		fmt.Fprintf(w, "R l%d %s 1 6\nX watchdog: listing round did not complete (deadlock?)\nE\n", round, impl)
+	if ok, why := await(done); !ok {
+		fmt.Fprintf(w, "R l%d %s 1 6\nX watchdog: listing round did not complete: deadlock (%s)\nE\n", round, impl, why)
 		w.Flush()
 		t.Fatalf("listing round %d did not complete", round)
 	}
@@ -1397,13 +1513,19 @@ func TestConc(t *testing.T) {
 				if c := clock.Load(); c != last {
 					last, lastMove = c, time.Now()
 				} else if time.Since(lastMove) > stuckAfter {
+					dl, why := confirmDeadlock()
+					if !dl {
+						stillWaiting()
+						lastMove = time.Now()
+						continue
+					}
 					var inflight []string
 					for i := range current {
 						if v := current[i].Load(); v != nil && v.(string) != "" {
 							inflight = append(inflight, fmt.Sprintf("g%d:[%s]", i, v.(string)))
 						}
 					}
-					fmt.Fprintf(w, "R %d %s %d %d\nX watchdog: no operation completed for %v; stuck: %s (a lock is still held: deadlock)\nE\n", round, impl, m, ngor, stuckAfter, strings.Join(inflight, " "))
+					fmt.Fprintf(w, "R %d %s %d %d\nX watchdog: no operation completed for %v; stuck: %s: deadlock (%s)\nE\n", round, impl, m, ngor, stuckAfter, strings.Join(inflight, " "), why)
 					w.Flush()
 					t.Fatalf("round %d: operations stuck (deadlock?): %v", round, inflight)
 				}
